@@ -9,7 +9,7 @@ local macro "len_omega" : tactic =>
   `(tactic| ((try simp only [List.length_append, List.length_cons, List.length_nil]) <;> (try omega)))
 local macro "lst" : tactic => `(tactic| ((try simp only [List.append_assoc, List.cons_append, List.nil_append]) <;> (try rfl)))
 
-theorem tr_while (fuel : Nat) (env : Src.Env) (he : PlainEnv env) (neg : Bool) (t : Ev) (B : Src.Stmts) (k : Nat) (b : Src.B) :
+theorem tr_while (fuel : Nat) (env : Src.Env) (he : EnvOK cx env) (neg : Bool) (t : Ev) (B : Src.Stmts) (k : Nat) (b : Src.B) :
     Src.tr fuel [] env (.while_ neg t B) k b =
       ((Src.trStmts fuel [] (loopEnv env (tbl b).length k) B (tbl b).length (b.push (.halt (evInvalid "loop head"))).1).1.set (tbl b).length
         (if neg then .test t k (Src.trStmts fuel [] (loopEnv env (tbl b).length k) B (tbl b).length (b.push (.halt (evInvalid "loop head"))).1).2
@@ -19,17 +19,18 @@ theorem tr_while (fuel : Nat) (env : Src.Env) (he : PlainEnv env) (neg : Bool) (
   rw [Src.tr]; simp only [e]; rfl
 
 /-- `while not (t) { body }` : label, test jumping to the end, block, jump back -/
-theorem whileNeg_core (cx : Cx) (fuel : Nat) (env : Src.Env) (he : PlainEnv env) (lb : Nat) (hd : Hdr) (body : Stmts)
+theorem whileNeg_core (cx : Cx) (fuel : Nat) (env : Src.Env) (he : EnvOK cx env) (lb : Nat) (hd : Hdr) (body : Stmts)
     (ht : isTest hd.name = true) {s sa sb s' : St} {ops : List LItem} (o1 o2 sL eB : Nat)
-    (hP : ∀ env', PlainEnv env' → PieceOK cx ops sa sb (fun k b => Src.trStmts fuel [] env' (toSrcStmts body) k b) env')
-    (hsaL : sa.loops = (lb + 1, lb + 2) :: s.loops) (hsaC : sa.cases = s.cases) (hl : s'.loops = s.loops) (hc : s'.cases = s.cases) :
+    (hP : ∀ env', EnvOK cx env' → PieceOK cx ops sa sb (fun k b => Src.trStmts fuel [] env' (toSrcStmts body) k b) env')
+    (hsaL : sa.loops = (lb + 1, lb + 2) :: s.loops) (hsaC : sa.cases = s.cases) (hl : s'.loops = s.loops) (hc : s'.cases = s.cases)
+    (hnA : NamedLe s sa) (hnB : NamedLe sb s') :
     PieceOK cx ([LItem.label (lb + 1) false, LItem.ljump ⟨o1, hd.name, hd.params⟩ (some (lb + 2))] ++
         ([LItem.label sL false] ++ ops ++ [LItem.label eB false]) ++
         [LItem.ljump ⟨o2, Gen.op_jump, []⟩ (some (lb + 1)), LItem.label (lb + 2) false]) s s'
       (fun k b => Src.tr fuel [] env (.while_ true (hdrEv hd) (toSrcStmts body)) k b) env := by
   have hP0 := hP env he
   have htr := fun k b => tr_while fuel env he true (hdrEv hd) (toSrcStmts body) k b
-  have hgrow : ∀ k b, Grow b (Src.tr fuel [] env (.while_ true (hdrEv hd) (toSrcStmts body)) k b).1 := by
+  have hgrow : ∀ k b, Grow cx.Z b (Src.tr fuel [] env (.while_ true (hdrEv hd) (toSrcStmts body)) k b).1 := by
     intro k b
     rw [htr]
     exact ((Grow.push b _).trans ((hP _ (plainEnv_loopEnv he _ _)).grow _ _)).set_ge (Nat.le_refl _) _
@@ -39,7 +40,7 @@ theorem whileNeg_core (cx : Cx) (fuel : Nat) (env : Src.Env) (he : PlainEnv env)
     have := falls_snoc_label ([LItem.label (lb + 1) false, LItem.ljump ⟨o1, hd.name, hd.params⟩ (some (lb + 2))] ++
         ([LItem.label sL false] ++ ops ++ [LItem.label eB false]) ++ [LItem.ljump ⟨o2, Gen.op_jump, []⟩ (some (lb + 1))]) (lb + 2) false
     simpa [List.append_assoc] using this
-  refine ⟨hl, hc, ?_, ?_, ?_, ?_, hgrow, ?_⟩
+  refine ⟨hl, hc, (hnA.trans hP0.named).trans hnB, ?_, ?_, ?_, ?_, hgrow, ?_⟩
   · have := lastNotCtx_snoc_label ([LItem.label (lb + 1) false, LItem.ljump ⟨o1, hd.name, hd.params⟩ (some (lb + 2))] ++
         ([LItem.label sL false] ++ ops ++ [LItem.label eB false]) ++ [LItem.ljump ⟨o2, Gen.op_jump, []⟩ (some (lb + 1))]) (lb + 2) false
     simpa [List.append_assoc] using this
@@ -49,7 +50,8 @@ theorem whileNeg_core (cx : Cx) (fuel : Nat) (env : Src.Env) (he : PlainEnv env)
   · intro l hl'
     simp only [List.append_assoc, List.cons_append, List.nil_append, loneJump_two] at hl'
     cases hl'
-  intro r i0 hp hpre k b hag m j hex hcont
+  intro r i0 hp hpre k b hag m j hex hin hcont
+  have hinB : NamedIn cx sb := hin.le hnB
   have hend := hcont hfalls
   rw [htr] at hag ⊢
   simp only [↓reduceIte] at hag ⊢
@@ -80,41 +82,56 @@ theorem whileNeg_core (cx : Cx) (fuel : Nat) (env : Src.Env) (he : PlainEnv env)
   have hstepT := lab_test hitT (isTest_not_jump _ ht) ht
   have hev : (⟨hd.name, convParams hd.params⟩ : Ev) = hdrEv hd := rfl
   simp only [hev] at hstepT
-  refine loop_ind (fun m j => ExitsOK cx m j s env ∧ R2 cx m j ⟨r, i0 + (ops.length + 6)⟩ k)
-    (fun m j m' j' h hlt => ⟨h.1.down j' hlt, h.2.down j' hlt⟩) (fun m j j' h hle => ⟨h.1.monoJ hle, h.2.monoJ hle⟩) ?_ m j ⟨hex, hend⟩
-  intro m j hyp lower _
   have hbrkAt : ∀ m' j', ExitsOK cx m' j' s env ∧ R2 cx m' j' ⟨r, i0 + (ops.length + 6)⟩ k → R2 cx m' j' (target cx.rs (lb + 2)) k := by
     intro m' j' hy
     rw [htgt2]
     refine R2.silL (lab_label hitE) ?_
     rw [LPos.next_eq r _ (i0 + (ops.length + 6)) (by omega)]; exact hy.2
-  refine R2.silL (lab_label hit0) ?_
-  rw [LPos.next_eq r _ (i0 + 1) rfl]
-  refine R2.test hstepT (nodeStep_of hNh) (hbrkAt m j hyp).1 (EE_of_lower (fun m' j' hlt => ?_))
-  have hy' : ExitsOK cx m' j' s env ∧ R2 cx m' j' ⟨r, i0 + (ops.length + 6)⟩ k := ⟨hyp.1.down j' hlt, hyp.2.down j' hlt⟩
-  have hPh := lower m' j' hlt
-  have hex' : ExitsOK cx m' j' sa (loopEnv env (tbl b).length k) :=
-    exitsOK_push hy'.1 (lb + 1) (lb + 2) (by rw [htgt1]; exact hPh) (hbrkAt m' j' hy') hsaL hsaC
-  have hafter : R2 cx m' j' ⟨r, i0 + 2 + ops.length + 2⟩ (tbl b).length := by
-    have e : i0 + 2 + ops.length + 2 = i0 + ops.length + 4 := by omega
-    rw [e]
-    refine R2.silL (lab_jump hitJ jump_isJump) ?_
-    rw [htgt1]; exact hPh
-  rw [LPos.next_eq r _ (i0 + 2) rfl]
-  exact loop_body_run cx hPe sL eB _ hpBlk (tbl b).length _ hagB m' j' hex' hafter
+  -- the body, given the loop head
+  have hbodyAt : ∀ m' j', ExitsOK cx m' j' s env ∧ R2 cx m' j' ⟨r, i0 + (ops.length + 6)⟩ k → R2 cx m' j' ⟨r, i0⟩ (tbl b).length →
+      R2 cx m' j' ⟨r, i0 + 2⟩ (Src.trStmts fuel [] (loopEnv env (tbl b).length k) (toSrcStmts body) (tbl b).length
+        (b.push (.halt (evInvalid "loop head"))).1).2 ∧
+      LabExport cx (loopEnv env (tbl b).length k) m' j' (b.push (.halt (evInvalid "loop head"))).1
+        (Src.trStmts fuel [] (loopEnv env (tbl b).length k) (toSrcStmts body) (tbl b).length
+          (b.push (.halt (evInvalid "loop head"))).1).1 := by
+    intro m' j' hy' hPh
+    have hex' : ExitsOK cx m' j' sa (loopEnv env (tbl b).length k) :=
+      exitsOK_push hy'.1 (lb + 1) (lb + 2) (by rw [htgt1]; exact hPh) (hbrkAt m' j' hy') hsaL hsaC
+    have hafter : R2 cx m' j' ⟨r, i0 + 2 + ops.length + 2⟩ (tbl b).length := by
+      have e : i0 + 2 + ops.length + 2 = i0 + ops.length + 4 := by omega
+      rw [e]
+      refine R2.silL (lab_jump hitJ jump_isJump) ?_
+      rw [htgt1]; exact hPh
+    exact loop_body_run cx hPe sL eB _ hpBlk (tbl b).length _ hagB m' j' hex' hinB hafter
+  have hhead : ∀ m j, ExitsOK cx m j s env ∧ R2 cx m j ⟨r, i0 + (ops.length + 6)⟩ k → R2 cx m j ⟨r, i0⟩ (tbl b).length := by
+    refine loop_ind (fun m j => ExitsOK cx m j s env ∧ R2 cx m j ⟨r, i0 + (ops.length + 6)⟩ k)
+      (fun m j m' j' h hlt => ⟨h.1.down j' hlt, h.2.down j' hlt⟩) (fun m j j' h hle => ⟨h.1.monoJ hle, h.2.monoJ hle⟩) ?_
+    intro m j hyp lower _
+    refine R2.silL (lab_label hit0) ?_
+    rw [LPos.next_eq r _ (i0 + 1) rfl]
+    refine R2.test hstepT (nodeStep_of hNh) (hbrkAt m j hyp).1 (EE_of_lower (fun m' j' hlt => ?_))
+    rw [LPos.next_eq r _ (i0 + 2) rfl]
+    exact (hbodyAt m' j' ⟨hyp.1.down j' hlt, hyp.2.down j' hlt⟩ (lower m' j' hlt)).1
+  have hP' := hhead m j ⟨hex, hend⟩
+  refine ⟨hP', ?_⟩
+  have hexp := (hbodyAt m j ⟨hex, hend⟩ hP').2
+  have hpush := Pushes.push b (.halt (evInvalid "loop head"))
+  refine LabExport.mono hexp hpush.len (fun i hi => hpush.same hi) (fun i hi => ?_)
+  rw [tbl_set, List.getElem?_set_ne (by omega)]
 
 /-- `while (t) { body }` : jump to the test, block, test jumping back to the block -/
-theorem whilePos_core (cx : Cx) (fuel : Nat) (env : Src.Env) (he : PlainEnv env) (lb : Nat) (hd : Hdr) (body : Stmts)
+theorem whilePos_core (cx : Cx) (fuel : Nat) (env : Src.Env) (he : EnvOK cx env) (lb : Nat) (hd : Hdr) (body : Stmts)
     (ht : isTest hd.name = true) {s sa sb s' : St} {ops : List LItem} (o1 o2 sL eB cL bL : Nat)
-    (hP : ∀ env', PlainEnv env' → PieceOK cx ops sa sb (fun k b => Src.trStmts fuel [] env' (toSrcStmts body) k b) env')
-    (hsaL : sa.loops = (lb + 1, lb + 2) :: s.loops) (hsaC : sa.cases = s.cases) (hl : s'.loops = s.loops) (hc : s'.cases = s.cases) :
+    (hP : ∀ env', EnvOK cx env' → PieceOK cx ops sa sb (fun k b => Src.trStmts fuel [] env' (toSrcStmts body) k b) env')
+    (hsaL : sa.loops = (lb + 1, lb + 2) :: s.loops) (hsaC : sa.cases = s.cases) (hl : s'.loops = s.loops) (hc : s'.cases = s.cases)
+    (hnA : NamedLe s sa) (hnB : NamedLe sb s') :
     PieceOK cx ([LItem.label (lb + 1) false, LItem.ljump ⟨o1, Gen.op_jump, []⟩ (some cL), LItem.label bL false] ++
         ([LItem.label sL false] ++ ops ++ [LItem.label eB false]) ++
         [LItem.label cL false, LItem.ljump ⟨o2, hd.name, hd.params⟩ (some bL), LItem.label (lb + 2) false]) s s'
       (fun k b => Src.tr fuel [] env (.while_ false (hdrEv hd) (toSrcStmts body)) k b) env := by
   have hP0 := hP env he
   have htr := fun k b => tr_while fuel env he false (hdrEv hd) (toSrcStmts body) k b
-  have hgrow : ∀ k b, Grow b (Src.tr fuel [] env (.while_ false (hdrEv hd) (toSrcStmts body)) k b).1 := by
+  have hgrow : ∀ k b, Grow cx.Z b (Src.tr fuel [] env (.while_ false (hdrEv hd) (toSrcStmts body)) k b).1 := by
     intro k b
     rw [htr]
     exact ((Grow.push b _).trans ((hP _ (plainEnv_loopEnv he _ _)).grow _ _)).set_ge (Nat.le_refl _) _
@@ -125,7 +142,7 @@ theorem whilePos_core (cx : Cx) (fuel : Nat) (env : Src.Env) (he : PlainEnv env)
         ([LItem.label sL false] ++ ops ++ [LItem.label eB false]) ++
         [LItem.label cL false, LItem.ljump ⟨o2, hd.name, hd.params⟩ (some bL)]) (lb + 2) false
     simpa [List.append_assoc] using this
-  refine ⟨hl, hc, ?_, ?_, ?_, ?_, hgrow, ?_⟩
+  refine ⟨hl, hc, (hnA.trans hP0.named).trans hnB, ?_, ?_, ?_, ?_, hgrow, ?_⟩
   · have := lastNotCtx_snoc_label ([LItem.label (lb + 1) false, LItem.ljump ⟨o1, Gen.op_jump, []⟩ (some cL), LItem.label bL false] ++
         ([LItem.label sL false] ++ ops ++ [LItem.label eB false]) ++
         [LItem.label cL false, LItem.ljump ⟨o2, hd.name, hd.params⟩ (some bL)]) (lb + 2) false
@@ -137,7 +154,8 @@ theorem whilePos_core (cx : Cx) (fuel : Nat) (env : Src.Env) (he : PlainEnv env)
   · intro l hl'
     simp only [List.append_assoc, List.cons_append, List.nil_append, loneJump_two] at hl'
     cases hl'
-  intro r i0 hp hpre k b hag m j hex hcont
+  intro r i0 hp hpre k b hag m j hex hin hcont
+  have hinB : NamedIn cx sb := hin.le hnB
   have hend := hcont hfalls
   rw [htr] at hag ⊢
   simp only [Bool.false_eq_true, ↓reduceIte] at hag ⊢
@@ -180,23 +198,20 @@ theorem whilePos_core (cx : Cx) (fuel : Nat) (env : Src.Env) (he : PlainEnv env)
   have hstepT := lab_test hitT (isTest_not_jump _ ht) ht
   have hev : (⟨hd.name, convParams hd.params⟩ : Ev) = hdrEv hd := rfl
   simp only [hev] at hstepT
-  -- the loop point is the label of the test
-  have hQ : R2 cx m j ⟨r, i0 + ops.length + 5⟩ (tbl b).length := by
-    refine loop_ind (fun m j => ExitsOK cx m j s env ∧ R2 cx m j ⟨r, i0 + (ops.length + 8)⟩ k)
-      (fun m j m' j' h hlt => ⟨h.1.down j' hlt, h.2.down j' hlt⟩) (fun m j j' h hle => ⟨h.1.monoJ hle, h.2.monoJ hle⟩) ?_ m j ⟨hex, hend⟩
-    intro m j hyp lower _
-    have hbrkAt : ∀ m' j', ExitsOK cx m' j' s env ∧ R2 cx m' j' ⟨r, i0 + (ops.length + 8)⟩ k →
-        R2 cx m' j' ⟨r, i0 + ops.length + 7⟩ k := by
-      intro m' j' hy
-      refine R2.silL (lab_label hitE) ?_
-      rw [LPos.next_eq r _ (i0 + (ops.length + 8)) (by omega)]; exact hy.2
-    refine R2.silL (lab_label hitC) ?_
-    rw [LPos.next_eq r _ (i0 + ops.length + 6) rfl]
-    refine R2.test hstepT (nodeStep_of hNh) ?_ (by rw [LPos.next_eq r _ (i0 + ops.length + 7) rfl]; exact (hbrkAt m j hyp).1)
-    rw [htgtB]
-    refine E.silL (lab_label hit2) (EE_of_lower (fun m' j' hlt => ?_))
-    have hy' : ExitsOK cx m' j' s env ∧ R2 cx m' j' ⟨r, i0 + (ops.length + 8)⟩ k := ⟨hyp.1.down j' hlt, hyp.2.down j' hlt⟩
-    have hQh := lower m' j' hlt
+  have hbrkAt : ∀ m' j', ExitsOK cx m' j' s env ∧ R2 cx m' j' ⟨r, i0 + (ops.length + 8)⟩ k →
+      R2 cx m' j' ⟨r, i0 + ops.length + 7⟩ k := by
+    intro m' j' hy
+    refine R2.silL (lab_label hitE) ?_
+    rw [LPos.next_eq r _ (i0 + (ops.length + 8)) (by omega)]; exact hy.2
+  -- the body, given the loop point (the label of the test)
+  have hbodyAt : ∀ m' j', ExitsOK cx m' j' s env ∧ R2 cx m' j' ⟨r, i0 + (ops.length + 8)⟩ k →
+      R2 cx m' j' ⟨r, i0 + ops.length + 5⟩ (tbl b).length →
+      R2 cx m' j' ⟨r, i0 + 3⟩ (Src.trStmts fuel [] (loopEnv env (tbl b).length k) (toSrcStmts body) (tbl b).length
+        (b.push (.halt (evInvalid "loop head"))).1).2 ∧
+      LabExport cx (loopEnv env (tbl b).length k) m' j' (b.push (.halt (evInvalid "loop head"))).1
+        (Src.trStmts fuel [] (loopEnv env (tbl b).length k) (toSrcStmts body) (tbl b).length
+          (b.push (.halt (evInvalid "loop head"))).1).1 := by
+    intro m' j' hy' hQh
     have hcontR : R2 cx m' j' (target cx.rs (lb + 1)) (tbl b).length := by
       rw [htgt1]
       refine R2.silL (lab_label hit0) ?_
@@ -208,17 +223,34 @@ theorem whilePos_core (cx : Cx) (fuel : Nat) (env : Src.Env) (he : PlainEnv env)
     have hafter : R2 cx m' j' ⟨r, i0 + 3 + ops.length + 2⟩ (tbl b).length := by
       have e : i0 + 3 + ops.length + 2 = i0 + ops.length + 5 := by omega
       rw [e]; exact hQh
+    exact loop_body_run cx hPe sL eB _ hpBlk (tbl b).length _ hagB m' j' hex' hinB hafter
+  have hhead : ∀ m j, ExitsOK cx m j s env ∧ R2 cx m j ⟨r, i0 + (ops.length + 8)⟩ k →
+      R2 cx m j ⟨r, i0 + ops.length + 5⟩ (tbl b).length := by
+    refine loop_ind (fun m j => ExitsOK cx m j s env ∧ R2 cx m j ⟨r, i0 + (ops.length + 8)⟩ k)
+      (fun m j m' j' h hlt => ⟨h.1.down j' hlt, h.2.down j' hlt⟩) (fun m j j' h hle => ⟨h.1.monoJ hle, h.2.monoJ hle⟩) ?_
+    intro m j hyp lower _
+    refine R2.silL (lab_label hitC) ?_
+    rw [LPos.next_eq r _ (i0 + ops.length + 6) rfl]
+    refine R2.test hstepT (nodeStep_of hNh) ?_ (by rw [LPos.next_eq r _ (i0 + ops.length + 7) rfl]; exact (hbrkAt m j hyp).1)
+    rw [htgtB]
+    refine E.silL (lab_label hit2) (EE_of_lower (fun m' j' hlt => ?_))
     rw [LPos.next_eq r _ (i0 + 3) rfl]
-    exact loop_body_run cx hPe sL eB _ hpBlk (tbl b).length _ hagB m' j' hex' hafter
-  refine R2.silL (lab_label hit0) ?_
-  rw [LPos.next_eq r _ (i0 + 1) rfl]
-  refine R2.silL (lab_jump hit1 jump_isJump) ?_
-  rw [htgtC]; exact hQ
+    exact (hbodyAt m' j' ⟨hyp.1.down j' hlt, hyp.2.down j' hlt⟩ (lower m' j' hlt)).1
+  have hQ := hhead m j ⟨hex, hend⟩
+  refine ⟨?_, ?_⟩
+  · refine R2.silL (lab_label hit0) ?_
+    rw [LPos.next_eq r _ (i0 + 1) rfl]
+    refine R2.silL (lab_jump hit1 jump_isJump) ?_
+    rw [htgtC]; exact hQ
+  have hexp := (hbodyAt m j ⟨hex, hend⟩ hQ).2
+  have hpush := Pushes.push b (.halt (evInvalid "loop head"))
+  refine LabExport.mono hexp hpush.len (fun i hi => hpush.same hi) (fun i hi => ?_)
+  rw [tbl_set, List.getElem?_set_ne (by omega)]
 
 /-- `WhileBlockCompileHandler.collect()` -/
-theorem while_pm (cx : Cx) (fuel : Nat) (env : Src.Env) (he : PlainEnv env) (lb : Nat) (neg : Bool) (hd : Hdr) (body : Stmts)
+theorem while_pm (cx : Cx) (fuel : Nat) (env : Src.Env) (he : EnvOK cx env) (lb : Nat) (neg : Bool) (hd : Hdr) (body : Stmts)
     (bodyM : M (List LItem)) (ht : isTest hd.name = true)
-    (hBody : ∀ env', PlainEnv env' → PM cx bodyM (fun k b => Src.trStmts fuel [] env' (toSrcStmts body) k b) env') :
+    (hBody : ∀ env', EnvOK cx env' → PM cx bodyM (fun k b => Src.trStmts fuel [] env' (toSrcStmts body) k b) env') :
     PM cx (whileOf lb neg hd bodyM) (fun k b => Src.tr fuel [] env (.while_ neg (hdrEv hd) (toSrcStmts body)) k b) env := by
   intro s items s' h
   cases neg with
@@ -239,7 +271,7 @@ theorem while_pm (cx : Cx) (fuel : Nat) (env : Src.Env) (he : PlainEnv env) (lb 
     rw [hitems]
     have hP := fun env' he' => hBody env' he' _ _ _ hrun
     have hP0 := hP env he
-    refine whileNeg_core cx fuel env he lb hd body ht _ _ sL eB hP rfl rfl ?_ ?_
+    refine whileNeg_core cx fuel env he lb hd body ht _ _ sL eB hP rfl rfl ?_ ?_ (NamedLe.refl _) (e2.3.trans e3.3)
     · show sd.loops.tail = s.loops
       rw [e3.1, e2.1, hP0.loops]; rfl
     · show sd.cases = s.cases
@@ -263,7 +295,7 @@ theorem while_pm (cx : Cx) (fuel : Nat) (env : Src.Env) (he : PlainEnv env) (lb 
     rw [hitems]
     have hP := fun env' he' => hBody env' he' _ _ _ hrun
     have hP0 := hP env he
-    refine whilePos_core cx fuel env he lb hd body ht _ _ sL eB _ _ hP ?_ ?_ ?_ ?_
+    refine whilePos_core cx fuel env he lb hd body ht _ _ sL eB _ _ hP ?_ ?_ ?_ ?_ e3.3 e2.3
     · rw [e3.1]; rfl
     · rw [e3.2]; rfl
     · show sc.loops.tail = s.loops
